@@ -2975,6 +2975,13 @@ SKIP_CERT_CHAIN_INIT:
     {
         int32 certFlags = 0;
 
+        if (end - c < 3)
+        {
+            /* certChainLen claims more data than the message holds */
+            ssl->err = SSL_ALERT_DECODE_ERROR;
+            psTraceErrr("Invalid Certificate message\n");
+            return MATRIXSSL_ERROR;
+        }
         certLen = *c << 16; c++;
         certLen |= *c << 8; c++;
         certLen |= *c; c++;
